@@ -99,17 +99,27 @@ func (d *disp) VarlinkDispatch(ctx context.Context, c varlink.Call, method strin
 		case 'R':
 			n++
 			c.Continues = false
-			err := c.Reply(ctx, map[string]int{"r": n})
-			log("R:" + errStr(err))
+			if err := c.Reply(ctx, map[string]int{"r": n}); err != nil {
+				log("R:ioerr")
+				return err
+			}
+			log("R:ok")
 		case 'C':
 			n++
 			c.Continues = true
 			err := c.Reply(ctx, map[string]int{"c": n})
 			c.Continues = false
+			if err != nil && c.WantsMore() {
+				log("C:ioerr")
+				return err
+			}
 			log("C:" + errStr(err))
 		case 'E':
-			err := c.ReplyError(ctx, "t.a.Err", map[string]int{"e": 1})
-			log("E:" + errStr(err))
+			if err := c.ReplyError(ctx, "t.a.Err", map[string]int{"e": 1}); err != nil {
+				log("E:ioerr")
+				return err
+			}
+			log("E:ok")
 		case 'N':
 			err := c.ReplyError(ctx, "NoDot", nil)
 			log("N:" + errStr(err))
